@@ -26,7 +26,7 @@ from typing import Dict, Iterable, List, Optional, Set, Tuple
 
 from asl.cfg import CFG, Node, cfg_of
 from asl.flow import find_path, pretty_path, reachable
-from asl.loader import AnalysisError, Unit, norm
+from asl.loader import AnalysisError, Unit, norm, own_nodes
 from asl.values import USERISH, Val, atoms_deep, mentions, roles_of_annotation
 from .common import real_units
 
@@ -426,6 +426,37 @@ def _filled_completely(ctx, unit: Unit, cfg: CFG, lname: str) -> Optional[str]:
     return None
 
 
+def closing_context_class(ctx, info) -> bool:
+    """A library context manager class whose ``__aexit__`` closes every element of the container its constructor was
+    given (``async with Closing(iterators): ...`` stands for the try/finally with the closing loop)."""
+    memo = ctx.__dict__.setdefault("_closing_context_class", {})
+    if info.fq in memo:
+        return memo[info.fq]
+    memo[info.fq] = False
+    init, aexit, aenter = info.methods.get("__init__"), info.methods.get("__aexit__"), info.methods.get("__aenter__")
+    if init is None or aexit is None or aenter is None or len(init.param_names()) != 2 or aexit.kind != "coroutine":
+        return False
+    p = init.param_names()[1]
+    fields = [t.attr for st in own_nodes(init.node) if isinstance(st, (ast.Assign, ast.AnnAssign))
+              for t in (st.targets if isinstance(st, ast.Assign) else [st.target])
+              if isinstance(t, ast.Attribute) and norm(t.value) == init.param_names()[0]
+              and isinstance(st.value, ast.Name) and st.value.id == p]
+    if len(fields) != 1:
+        return False
+    # entering does nothing that could fail or suspend
+    if any(n.kind in ("await", "yield", "pull", "enter", "call") and not n.tag for n in cfg_of(aenter).nodes):
+        return False
+    v = ctx.inlined(aexit)
+    cfg = cfg_of(v)
+    src = f"{init.short}:{p}"
+    for n in cfg.nodes:
+        if n.kind == "siter" and not n.tag and norm(n.info.get("iter")) == f"{aexit.param_names()[0]}.{fields[0]}":
+            if _loop_closes_all(ctx, v, cfg, n, src, elements_are_iterators=True):
+                others = [m for m in cfg.nodes if m.kind in ("await", "yield", "pull") and not m.tag and not m.in_region("loop", n.ast)]
+                memo[info.fq] = not others
+    return memo[info.fq]
+
+
 def close_nodes(ctx, unit: Unit, cfg: CFG, src: str, findings: List[Tuple[Node, str]]) -> Set[Node]:
     out: Set[Node] = set()
     for n in cfg.nodes:
@@ -434,6 +465,18 @@ def close_nodes(ctx, unit: Unit, cfg: CFG, src: str, findings: List[Tuple[Node, 
             v = ctx.vals.expr(unit, cm, n)
             if any(a[0] == "scoped" for a in v) and _expr_mentions(ctx, unit, cm, n, src):
                 out.add(n)
+            elif isinstance(cm, ast.Call) and len(cm.args) == 1 and not cm.keywords and v \
+                    and all(a[0] == "libinst" and ctx.pkg.lib_class(a[1]) is not None
+                            and closing_context_class(ctx, ctx.pkg.lib_class(a[1])) for a in v):
+                av = ctx.vals.element_of(ctx.vals.expr(unit, cm.args[0], n))
+                if any(a[0] in ("iter", "user") and mentions(frozenset([a]), src) for a in av):
+                    proxy = Node(-1, "siter", None, n.regions, n.tag, n.stmt)
+                    proxy.info["iter"] = cm.args[0]
+                    why = _container_complete(ctx, unit, cfg, proxy, src)
+                    if why is None:
+                        out.add(n)
+                    else:
+                        findings.append((n, why))
         elif n.kind == "siter":
             if _loop_closes_all(ctx, unit, cfg, n, src):
                 why = _container_complete(ctx, unit, cfg, n, src)
